@@ -167,6 +167,7 @@ def run(ctx):
               "reply.merge.se", "reply.merge.es"):
         if ctx.tags.get(t, 0) == 0:
             ctx.violation("TAG", [t], "corpus", f"a corpus program exercising {t}", "none", "corpus adequacy (branch table DESIGN-appendix A 21/22/27)")
+    C.corpus_adequacy(ctx, enforce=False)
     ctx.floor("C07.table", 40)
     return check.finish(
         ctx, "translation_validation",
